@@ -169,3 +169,29 @@ impl Iterator for IdGenerator {
         Some(RequestId(format!("A{:04}", self.next % 10_000)))
     }
 }
+
+#[cfg(feature = "djc_tokio_imap_verif")]
+impl<T> Client<T>
+where
+    T: AsyncRead + AsyncWrite + Unpin,
+{
+    /// Verification hook: a client over an arbitrary transport (no greeting is read).
+    pub fn from_transport(io: T) -> Self {
+        Client {
+            transport: ImapCodec::default().framed(io),
+            state: State::NotAuthenticated,
+            request_ids: IdGenerator::new(),
+        }
+    }
+
+    /// Verification hook: `call`, generic in the transport.
+    pub fn call_generic<C: Into<Command>>(&mut self, cmd: C) -> ResponseStream<'_, T> {
+        let request_id = self.request_ids.next().unwrap();
+        ResponseStream {
+            client: self,
+            request_id,
+            cmd: cmd.into(),
+            state: ResponseStreamState::Start,
+        }
+    }
+}
